@@ -64,6 +64,8 @@ def jobs(tier):
                 p = {"qs_attempts": 1, "wait_attempts": 1, "fork_follow": f1, "fork_follow2": f2}
                 deep = (not q) or b == "fk_memb" or f2 == 1
                 J.append(Job(b, "fork2", "1,0,0,0" if deep else "0,0,0,0", dict(p, pre_lfht=1), env, workers=8))
+                # a call_rcu helper exists and is paused / resumed twice in a row
+                J.append(Job(b, "fork2", "1,0,0,0,0" if (deep or f1 == 1) else "0,0,0,0,0", dict(p, ncb=1), env, workers=8))
                 if b == "fk_bp" and f1 == 1:
                     # another thread creates the process's first AUTO_RESIZE table while the forking thread is inside its first bracket
                     J.append(Job(b, "fork2", "1,0,0,0" if q else "2,0,0,0", dict(p, racer=1), env, workers=8))
